@@ -12,7 +12,8 @@ PROP = "C17"
 RULE = (
     "pairs: every ordered pair of the 85-entry hand-annotated catalogue (SI, prefixes, UDUNITS powers, rates, "
     "offset temperatures, percent, dimensionless aliases, compound units) through every helper "
-    "(compatible, equivalent, to_units, prepare, publish with foreign units, link pull); enumerated completely. "
+    "(compatible, equivalent, to_units, prepare, publish with foreign units, link pull; the last two also on an output with "
+    "memory limit 0, the judged item re-read from its spill file after later publications); enumerated completely. "
     "sequences: Hypothesis-drawn query sequences (helper, a, b) with cache clears so the memoisation history "
     "varies. non-trivial pair = two different strings; non-trivial sequence = queries (a,b) after (b,a) or "
     "after a cache clear, with at least one compatible-but-not-equivalent pair. distinct = canonical JSON."
